@@ -365,6 +365,7 @@ def check_case(data: dict, lab: Labels) -> None:
 
 def st_case(ctx: Ctx):
     g = T.TreeGen(leaves=ctx.pick(9, 14), origin_rate=0.15)
+    g2 = T.TreeGen(leaves=ctx.pick(7, 10), origin_rate=0.1, detach_rate=0.3)
     action = st.one_of(
         st.tuples(st.sampled_from(["keep", "clone", "rewrite", "replace", "remove", "remove"]), st.integers(0, 9)).map(list),
         st.tuples(st.sampled_from(ACTIONS), st.integers(0, 9)).map(list),
@@ -375,7 +376,8 @@ def st_case(ctx: Ctx):
                       st.lists(base_rule, min_size=1, max_size=2))
     return st.fixed_dictionaries(
         {
-            "tree": st.one_of(g.inner_tree(), g.inner_tree(), g.tree()),
+            # (g2: a given-up node next to an equal successor of the same id under one parent)
+            "tree": st.one_of(g.inner_tree(), g2.inner_tree(), g.tree()),
             "rules1": rules,
             "rules2": st.one_of(st.lists(rule, min_size=1, max_size=4), st.lists(rule, min_size=2, max_size=4),
                                 st.lists(base_rule, min_size=1, max_size=2)),
@@ -385,4 +387,92 @@ def st_case(ctx: Ctx):
     )
 
 
-PARTS = [Part("cases", check_case, strategy=st_case, quick=12000, thorough=320000)]
+# ------------------------------------------------------------------------------ same-named classes
+
+_TWINS: list = []
+
+
+def _twin_classes() -> list:
+    """three node classes of one name (a class factory called with three bases), in one module."""
+    if not _TWINS:
+        from dataclasses import dataclass
+
+        def make(base: type) -> type:
+            @dataclass(frozen=True, kw_only=True)
+            class C09Twin(base):  # type: ignore[misc, valid-type]
+                pass
+
+            return C09Twin
+
+        _TWINS.extend([make(M.cls("LeafA")), make(M.cls("LeafB")), make(M.cls("Base"))])
+    return _TWINS
+
+
+def check_same_name(data: dict, lab: Labels) -> None:
+    """dispatch goes by the node's own class: node classes that share a `__name__` but not their bases
+    are visited by one visitor class in a drawn order (plain visitor and transformer, both strictness
+    settings); each node gets the method its own MRO prescribes."""
+    import dataclasses
+    import types as _t
+
+    from pyoak.visitor import ASTTransformVisitor, ASTVisitor
+
+    tw = _twin_classes()
+    bases = ["LeafA", "LeafB", "Base"]
+    methods = [m for k, m in enumerate(["LeafA", "LeafB", "Base", "C09Twin", "ASTNode"]) if data["methods"] >> k & 1]
+    strict = bool(data["strict"])
+
+    def expected(k: int) -> str:
+        mro = ["C09Twin", *M.mro_names(bases[k]), "ASTNode"]
+        if strict:
+            return "visit_C09Twin" if "C09Twin" in methods else "generic_visit"
+        return next((f"visit_{c}" for c in mro if c in methods), "generic_visit")
+
+    def mk(name: str):
+        def visit(self, node):
+            return name
+        visit.__name__ = name
+        return visit
+
+    ns: dict = {f"visit_{c}": mk(f"visit_{c}") for c in methods}
+    ns["generic_visit"] = lambda self, node: "generic_visit"
+    ns["strict"] = strict
+    vis = _t.new_class("TwinDispatcher", (ASTVisitor,), {}, lambda d: d.update(ns))()
+    order = [k % 3 for k in data["order"]]
+    nodes = [tw[k](**({"v": i} if k < 2 else {})) for i, k in enumerate(order)]
+    for n, k in zip(nodes, order):
+        got = vis.visit(n)
+        require(got == expected(k), "dispatch", f"visitor with {methods} strict={strict}, classes visited in order "
+                f"{[bases[j] for j in order]}: a C09Twin({bases[k]}) went to {got}, its own MRO says {expected(k)}")
+    # the same through a transformer: nodes whose method is a rule are rewritten (v + 100), the others kept
+    def rule(self, node):
+        return dataclasses.replace(node, v=node.v + 100) if hasattr(node, "v") else node
+
+    tns: dict = {f"visit_{c}": rule for c in methods}
+    tns["strict"] = strict
+    tr = _t.new_class("TwinTransformer", (ASTTransformVisitor,), {}, lambda d: d.update(tns))()
+    root = M.cls("Mixed")(child=None, items=tuple(nodes), v=0)
+    if "Mixed" not in methods and not (not strict and ({"Base", "ASTNode"} & set(methods))):
+        res = tr.transform(root)
+        require(res is not None and len(res.items) == len(nodes), "transform-result", "element count")
+        for n, r, k in zip(nodes, res.items, order):
+            fires = expected(k) != "generic_visit" and hasattr(n, "v")
+            if fires:
+                require(r is not n and r.v == n.v + 100, "transform-dispatch",
+                        f"C09Twin({bases[k]}) with rules {methods} strict={strict} order {[bases[j] for j in order]}: rule did not fire")
+            else:
+                require(r is n, "transform-dispatch",
+                        f"C09Twin({bases[k]}) with rules {methods} strict={strict} order {[bases[j] for j in order]}: "
+                        f"no rule applies, yet the node was rewritten")
+        lab.tag("transformer")
+    lab.tag_if(len(set(order)) >= 2, "two-or-more-same-named-classes")
+    lab.nontrivial = len(set(order)) >= 2 and bool(methods)
+
+
+def st_same_name(ctx: Ctx):
+    return st.fixed_dictionaries({"order": st.lists(st.integers(0, 2), min_size=2, max_size=6), "methods": st.integers(0, 31),
+                                  "strict": st.booleans()})
+
+
+PARTS = [Part("cases", check_case, strategy=st_case, quick=12000, thorough=320000),
+         Part("same_name", check_same_name, strategy=st_same_name, quick=800, thorough=8000)]
